@@ -11,5 +11,9 @@ KAllKinds == AllKinds
 KMixedSmall == {"hit", "malformed"}
 KMixed == {"hit", "miss", "malformed"}
 KPortable == {"hit", "malformed", "panic"}
+ONone == {"none"}
+OAll == OptKinds
+OCookie == {"plain", "cookie"}
+KOptBatch == {"hit", "miss"}
 SymClients == Permutations(Clients)
 =============================================================================
